@@ -743,6 +743,79 @@ Proof.
   apply run_anchors_known; assumption.
 Qed.
 
+(* ---- non-vacuity: the translated index_batch_crawl run by vm_compute on the bytes of both files of a concrete state
+   (PropsEx.exs), compared with the model: report, bytes of the trie file, bytes of the link file, counter in RAM.
+   The batch: l2 (new page under an existing webentity) links to l1 (new domain: a webentity is created), to a known page, to l1
+   again and to itself; then l1 and the known page are met as sources AFTER having been recorded as targets (their recorded
+   objects are not marked crawled: refresh, flag, write in place) ---- *)
+From Traph Require PropsEx.
+Definition ex_l1 : bytes := [115;58;104;116;116;112;124;104;58;111;114;103;124;104;58;122;124;112;58;113;124].  (* s:http|h:org|h:z|p:q| *)
+Definition ex_l2 : bytes := PropsEx.ex_px ++ [112;58;113;124].
+Definition ex_rm : py_ram := mk_ram (rules PropsEx.exs) (dflt PropsEx.exs).
+Definition ex_sgl : py_pm := mk_pm 16 (link_file PropsEx.exs) 0.
+Definition ex_data : list (bytes * list bytes) :=
+  [(ex_l2, [ex_l1; PropsEx.ex_pxy; ex_l1; ex_l2]); (ex_l1, []); (PropsEx.ex_pxy, [ex_l2])].
+
+Definition run_batch (data : list (bytes * list bytes)) : option (py_report * bool * bool * N * bool * bool) :=
+  match py_traph_index_batch_crawl ex_rm hd0 ex_sg ex_sgl data 0 with
+  | Some (hd', sg', sgl', rp) =>
+      let s' := fst (Traph.batch_crawl data PropsEx.exs) in
+      Some (rp, Bytes.beq (pm_array sg') (trie_file s'), Bytes.beq (pm_array sgl') (link_file s'),
+            py_thdr_last_webentity_id hd',
+            Bytes.beq (pm_array sg') (pm_array ex_sg), Bytes.beq (pm_array sgl') (pm_array ex_sgl))
+  | None => None
+  end.
+
+Definition ex_org_z : bytes := [115;58;104;116;116;112;124;104;58;111;114;103;124;104;58;122;124].            (* s:http|h:org|h:z| *)
+Definition ex_org_z_s : bytes := [115;58;104;116;116;112;115;124;104;58;111;114;103;124;104;58;122;124].      (* s:https|... *)
+Definition ex_www : bytes := [104;58;119;119;119;124].                                                         (* h:www| *)
+
+Example ex_batch :
+  run_batch ex_data =
+    Some (mk_rp [(4, [ex_org_z; ex_org_z_s; ex_org_z ++ ex_www; ex_org_z_s ++ ex_www])] 2, true, true, 4, false, false) /\
+  snd (Traph.batch_crawl ex_data PropsEx.exs) =
+    Report 2 [(4, [ex_org_z; ex_org_z_s; ex_org_z ++ ex_www; ex_org_z_s ++ ex_www])] /\
+  (length (stubs (fst (Traph.batch_crawl ex_data PropsEx.exs))) = length (stubs PropsEx.exs) + 10)%nat.
+Proof. vm_compute. repeat split; reflexivity. Qed.
+
+(* a page already crawled in the file, met as a target and then as a source: its recorded object is marked, nothing is
+   rewritten for it (the model's upd set_crawled changes nothing) *)
+Example ex_batch_crawled :
+  run_batch [(ex_l2, [IdFacts.ex_pa]); (IdFacts.ex_pa, [])] = Some (mk_rp [] 1, true, true, 3, false, false).
+Proof. vm_compute. reflexivity. Qed.
+
+
+(* the hypotheses of the theorem hold on this example *)
+Lemma ex_anchors : anchors_known PropsEx.exs.
+Proof.
+  unfold PropsEx.exs. apply run_anchors_known; [exact PropsEx.ex_rules_wf|exact PropsEx.exh_wf|].
+  apply no_reopen_resupply. unfold PropsEx.exh. repeat constructor.
+Qed.
+
+Example ex_batch_thm :
+  exists hd' sg' sgl' n c, snd (Traph.batch_crawl ex_data PropsEx.exs) = Report n c /\
+    py_traph_index_batch_crawl ex_rm hd0 ex_sg ex_sgl ex_data 0 = Some (hd', sg', sgl', report_of n c) /\
+    hrep (fst (Traph.batch_crawl ex_data PropsEx.exs)) hd' sg' /\
+    lrep (stubs (fst (Traph.batch_crawl ex_data PropsEx.exs))) sgl' /\
+    ramrep (fst (Traph.batch_crawl ex_data PropsEx.exs)) ex_rm.
+Proof.
+  pose proof (py_traph_index_batch_crawl_state_spec PropsEx.exs (proj1 ex_inv) (proj2 ex_inv) ex_anchors
+                ex_rm hd0 ex_sg ex_sgl ex_data 0) as H.
+  cbv zeta in H.
+  assert (H1 : ramrep PropsEx.exs ex_rm) by (split; reflexivity).
+  assert (H2 : lrep (stubs PropsEx.exs) ex_sgl) by (split; reflexivity).
+  assert (H3 : Forall (fun p => wf_lru (fst p) /\ Forall wf_lru (snd p)) ex_data).
+  { unfold ex_data. repeat constructor; cbn [fst snd]; PropsEx.wf_lru_tac. }
+  specialize (H H1 ex_hrep H2 H3).
+  assert (H4 : nb (fst (Traph.batch_crawl ex_data PropsEx.exs)) * 128 < 2 ^ 64) by (vm_compute; reflexivity).
+  assert (H5 : lastwe PropsEx.exs + N.of_nat (length (concat (map snd ex_data)) + length ex_data) < 2 ^ 32)
+    by (vm_compute; reflexivity).
+  assert (H6 : fits (saddr (length (stubs (fst (Traph.batch_crawl ex_data PropsEx.exs)))))) by (vm_compute; reflexivity).
+  destruct (H H4 H5 H6) as (hd' & sg' & sgl' & n & c & E1 & E2 & E3 & E4 & E5 & _).
+  exists hd', sg', sgl', n, c. auto.
+Qed.
+
 Print Assumptions py_traph_index_batch_crawl_state_spec.
 Print Assumptions py_traph_index_batch_crawl_spec.
 Print Assumptions py_traph_index_batch_crawl_reach.
+Print Assumptions ex_batch_thm.
